@@ -426,12 +426,43 @@ def _kwargs_loop_key(ctx, fi, name):
     return None
 
 
+def _not_first_part(ctx, fi, cmp):
+    if len(cmp.ops) != 1:
+        return False
+    op, a, b = cmp.ops[0], cmp.left, cmp.comparators[0]
+    if isinstance(a, ast.Constant) and isinstance(b, ast.Name):
+        flip = {ast.Lt: ast.Gt, ast.LtE: ast.GtE, ast.NotEq: ast.NotEq}.get(type(op))
+        if flip is None:
+            return False
+        op, a, b = flip(), b, a
+    if not (isinstance(a, ast.Name) and isinstance(b, ast.Constant) and isinstance(b.value, int)):
+        return False
+    if not ((isinstance(op, (ast.Gt, ast.NotEq)) and b.value == 0) or (isinstance(op, ast.GtE) and b.value == 1)):
+        return False
+    inits, grows, other = 0, 0, 0
+    for n in ctx.own_nodes(fi):
+        if isinstance(n, ast.Assign) and any(isinstance(t, ast.Name) and t.id == a.id for t in n.targets):
+            if isinstance(n.value, ast.Constant) and n.value.value == 0:
+                inits += 1
+            else:
+                other += 1
+        elif isinstance(n, ast.AugAssign) and isinstance(n.target, ast.Name) and n.target.id == a.id:
+            if isinstance(n.op, ast.Add):
+                grows += 1
+            else:
+                other += 1
+        elif isinstance(n, (ast.For, ast.With)) and any(isinstance(x, ast.Name) and x.id == a.id and isinstance(x.ctx, ast.Store) for x in ast.walk(n)):
+            other += 1
+    return inits >= 1 and grows >= 1 and other == 0 and a.id not in [p.lstrip('*') for p in fi.params]
+
+
 @rule('SA-DUPGUARD.bypass')
 @props('C13')
 def dup_bypass(ctx):
     """The duplicate guard of DirectoryRecord._add_child can be switched off with allow_duplicate.
-    Every call that may pass a true value must derive it from a comparison (the extent loop of
-    _add_fp: `offset > 0`), never from the constant True and never from a blanket retry: otherwise any
+    Every call that may pass a true value must derive it from "this is not the first part" (the extent loop of
+    _add_fp: `offset > 0`, offset starting at 0 and only growing), never from the constant True, from a blanket
+    retry, or from a comparison that can already hold for the first record (`thislen < length`): otherwise any
     second file of the same name is merged into the first as a multi-extent continuation."""
     obs = []
     targets = {'dr.DirectoryRecord.add_child': 2, 'dr.DirectoryRecord.track_child': 2, 'dr.DirectoryRecord._add_child': 2}
@@ -446,7 +477,9 @@ def dup_bypass(ctx):
         if isinstance(expr, ast.Constant):
             return 'true' if expr.value else 'false'
         if isinstance(expr, ast.Compare):
-            return 'cmp'
+            # only "this is not the first part" may lift the guard: `off > 0` (or != 0 / >= 1) on a local that starts at
+            # the constant 0 and only ever grows by augmented addition - false exactly for the first record of a file
+            return 'cmp' if _not_first_part(ctx, fi, expr) else 'unknown'
         if isinstance(expr, ast.BoolOp):
             ks = [classify(fi, v, depth + 1) for v in expr.values]
             if isinstance(expr.op, ast.And):
